@@ -457,11 +457,13 @@ def clash_histories():
                 out.append(h)
     # a category copied from another one (from_category) with units of its own given on top: they are drawn from the copied
     # category's quantity type like any other category's - a unit of another type is refused, whatever else is registered
-    two = [("AddUnitBase", ("length", "metres", "m"), {}), ("AddUnit", ("length", "n", "cm", "%f*100.0", "%f/100.0"), {}), ("AddUnitBase", ("volume", "cubic metres", "m3"), {}),
+    two = [("AddUnitBase", ("length", "metres", "m"), {}), ("AddUnit", ("length", "n", "cm", "%f*100.0", "%f/100.0"), {}), ("AddUnit", ("length", "k", "km", "%f/1000.0", "%f*1000.0"), {}), ("AddUnitBase", ("volume", "cubic metres", "m3"), {}),
            ("AddUnit", ("volume", "n", "L", "%f*1000.0", "%f/1000.0"), {}), ("AddCategory", ("length", "length"), {}), ("AddCategory", ("depth", "length"), {"valid_units": ["m", "cm"], "default_unit": "cm"}),
            ("AddCategory", ("volume", "volume"), {})]  # fmt: skip
     for kw in ({"default_unit": "m3"}, {"valid_units": ["m3"]}, {"valid_units": ["m", "L"]}, {"valid_units": ["L"], "default_unit": "L"}, {"default_unit": "m"}, {"valid_units": ["cm"]}, {"valid_units": ["cm"], "default_unit": "m"},
-               {"default_unit": "nounit"}, {"valid_units": []}, {"min_value": 0.0, "default_unit": "L"}):  # fmt: skip
+               {"default_unit": "nounit"}, {"valid_units": []}, {"min_value": 0.0, "default_unit": "L"},
+               # a unit of the right type that the copied category does not list - alone, and together with a default outside the limits
+               {"default_unit": "km"}, {"default_unit": "km", "min_value": 5.0, "default_value": 1.0}, {"default_unit": "km", "max_value": 1.0, "min_value": 2.0}):  # fmt: skip
         for src in ("depth", "length"):
             out.append(list(two) + [("AddCategory", ("copy",), dict(kw, from_category=src)), ("Probe", ("copy", "m3"), {}), ("Probe", ("copy", "cm"), {}), ("AddCategory", ("copy2",), {"from_category": "copy"})])
     # a spelling that is first *used* as the legacy alias of a registered unit and only then registered as a unit of its own
